@@ -223,6 +223,9 @@ func newKern2(k tables.KernData2) Kern2 {
 }
 
 func (kd Kern2) KernPair(left, right GID) int16 {
+	if kd.Left == nil || kd.Right == nil { // invalid font: null class table offset
+		return 0
+	}
 	l, _ := kd.Left.Class(tables.GlyphID(left))
 	r, _ := kd.Right.Class(tables.GlyphID(right))
 	index := int(l) + int(r)
